@@ -550,7 +550,7 @@ class SCFG(Sized):
                             jt.pop(jt.index(s))
             else:
                 jt.append(new_name)
-            self.add_block(block.replace_jump_targets(jump_targets=tuple(jt)))
+            self.add_block(_replace_jump_targets(block, tuple(jt)))
 
     def insert_SyntheticExit(
         self,
@@ -658,9 +658,7 @@ class SCFG(Sized):
                 jt[jt.index(s)] = synth_assign
             # finally, replace the jump_targets
             self.add_block(
-                self.graph.pop(name).replace_jump_targets(
-                    jump_targets=tuple(jt)
-                )
+                _replace_jump_targets(self.graph.pop(name), tuple(jt))
             )
         # initialize new block, which will hold the branching table
         new_block = SyntheticHead(
@@ -931,6 +929,35 @@ class SCFG(Sized):
         numba_scfg.core.datastructures.scfg.SCFGIO.to_dict()
         """
         return SCFGIO.to_dict(self)
+
+
+def _replace_jump_targets(
+    block: BasicBlock, jump_targets: Tuple[str, ...]
+) -> BasicBlock:
+    """Replace the jump targets of a block that acts as a predecessor.
+
+    If the block is a region, the jump targets of the region are a copy of
+    the jump targets of its exiting block. In that case the exiting block
+    inside the region is updated too (recursively, since the exiting block may
+    itself be a region), such that both stay in sync. Any backedges of the
+    exiting block are retained.
+    """
+    if isinstance(block, RegionBlock):
+        assert block.subregion is not None
+        assert block.exiting is not None
+        exiting = block.subregion.graph.pop(block.exiting)
+        remaining = list(jump_targets)
+        exiting_jt = []
+        for target in exiting._jump_targets:
+            if target in exiting.backedges:
+                exiting_jt.append(target)
+            elif remaining:
+                exiting_jt.append(remaining.pop(0))
+        exiting_jt.extend(remaining)
+        block.subregion.add_block(
+            _replace_jump_targets(exiting, tuple(exiting_jt))
+        )
+    return block.replace_jump_targets(jump_targets=jump_targets)
 
 
 class SCFGIO:
